@@ -62,12 +62,16 @@ func c16Guard(c interface{}, what string, body func() *vlib.Failure) *vlib.Failu
 		}
 		done <- fail
 	}()
-	select {
-	case f := <-done:
-		return f
-	case <-time.After(20 * time.Second):
-		vlib.Die("C16", c, vlib.Failf("%s did not return within 20s: copying the early buffer to the output sink never ends", what))
-		return nil
+	patience := vlib.StartPatience(20 * time.Second)
+	for {
+		select {
+		case f := <-done:
+			return f
+		case <-time.After(20 * time.Millisecond):
+			if patience.Expired() {
+				vlib.Die("C16", c, vlib.Failf("%s did not return within 20s of wall-clock and CPU time: copying the early buffer to the output sink never ends", what))
+			}
+		}
 	}
 }
 
